@@ -427,7 +427,7 @@ def _child(world, desc, ctrl_r, ev_w, free):
                 else:
                     bob.state.BobState().setResultHash(rel, hashDirectory(rel))
                     b._installSharedPackage(st, bid_bytes(desc["bid"]))
-                    res = {"r": "shared", "shared": True}
+                    res = {"r": "shared", "shared": os.path.islink(rel)}
             finally:
                 bob.state.finalize()
     except BaseException as e:  # noqa
